@@ -160,7 +160,7 @@ func C04(c *core.Ctx) error {
 		return err
 	}
 	quick := core.Quick(c.Tier)
-	ifaces := corpus([]string{"mock", "callInfo", "calls", "sync", "fmt", "lockBase"}, !quick)
+	ifaces := corpus([]string{"mock", "callInfo", "calls", "sync", "fmt", "lockBase", "Id", "Url", "hTTp", "api", "iD"}, !quick)
 	plainIfaces := corpus(nil, !quick)
 	depth := 4
 	if !quick {
